@@ -191,6 +191,10 @@ _sync_auth_glock = threading.Lock()
 _sync_auth_locks = weakref.WeakKeyDictionary()
 
 
+# How many times in a row a single call may ask for re-authentication
+MAX_REAUTH_ATTEMPTS = 3
+
+
 def requires_auth(func):
     """If a decorated backend method (async or plain) raises AuthRequired,
     indicating that the backend authorization is no longer valid,
@@ -216,17 +220,20 @@ def requires_auth(func):
                     async with lock:
                         pass
 
-            try:
-                return await func(self, *a, **ka)
-            except exceptions.AuthRequired:
-                if not self._async_auth_lock.locked():
-                    async with self._async_auth_lock:
-                        await self.authenticate()
-                else:
-                    async with self._async_auth_lock:
-                        pass
+            # Not forever: if fresh authorization doesn't help, the error stands
+            for attempts_left in range(MAX_REAUTH_ATTEMPTS, -1, -1):
+                try:
+                    return await func(self, *a, **ka)
+                except exceptions.AuthRequired:
+                    if not attempts_left:
+                        raise
 
-                return await wrapper(self, *a, **ka)
+                    if not self._async_auth_lock.locked():
+                        async with self._async_auth_lock:
+                            await self.authenticate()
+                    else:
+                        async with self._async_auth_lock:
+                            pass
 
     else:
 
@@ -248,19 +255,21 @@ def requires_auth(func):
                     with lock:
                         pass
 
-            try:
-                return func(self, *a, **ka)
-            except exceptions.AuthRequired:
-                if self._auth_lock.acquire(blocking=False):
-                    try:
-                        self.authenticate()
-                    finally:
-                        self._auth_lock.release()
-                else:
-                    with self._auth_lock:
-                        pass
+            for attempts_left in range(MAX_REAUTH_ATTEMPTS, -1, -1):
+                try:
+                    return func(self, *a, **ka)
+                except exceptions.AuthRequired:
+                    if not attempts_left:
+                        raise
 
-                return wrapper(self, *a, **ka)
+                    if self._auth_lock.acquire(blocking=False):
+                        try:
+                            self.authenticate()
+                        finally:
+                            self._auth_lock.release()
+                    else:
+                        with self._auth_lock:
+                            pass
 
     wrapper = functools.wraps(func)(wrapper)
     return wrapper
